@@ -1,3 +1,5 @@
+import NeumannModel.Paths.BfsProofs
+import NeumannModel.Paths.DijkstraProofs
 import NeumannModel.Paths.TraverseProofs
 import NeumannModel.Paths.VarProofs
 /-
@@ -37,6 +39,92 @@ theorem old_find_path_witness :
 /-- the current rule says PathNotFound on the same query -/
 example : (findPath oneEdge Flt.all 2 1).toOption = none := by decide
 example : (findPath oneEdge Flt.all 1 2).toOption = some { nodes := [1, 2], edges := [7] } := by decide
+
+/-! ### find_path: a real walk, with the fewest hops; "not found" iff unreachable -/
+
+/-- the returned path starts at `s`, ends at `t`, and every consecutive pair of nodes is joined by an
+    existing edge carrying the listed id, usable in that direction, passing the edge filter, and
+    leading to a node that passes the node filter (the target is exempt) -/
+theorem bfs_path_is_walk (g : Graph) (flt : Flt) (s t : Nat) (p : Path)
+    (h : findPath g flt s t = .ok p) :
+    p.nodes.head? = some s ∧ p.nodes.getLast? = some t ∧ ChainOk g (BStep g flt t) p.nodes p.edges :=
+  Neumann.Paths.bfs_path_is_walk g flt s t p h
+
+/-- no qualifying walk from `s` to `t` has fewer hops than the returned path -/
+theorem bfs_path_shortest (g : Graph) (flt : Flt) (s t : Nat) (p : Path)
+    (h : findPath g flt s t = .ok p) :
+    ∀ n, BWalk g flt t s t n → p.edges.length ≤ n :=
+  Neumann.Paths.bfs_path_shortest g flt s t p h
+
+/-- for existing endpoints, `PathNotFound` is answered exactly when no qualifying walk exists -/
+theorem bfs_none_iff_unreachable (g : Graph) (flt : Flt) (s t : Nat)
+    (hs : g.hasNode s = true) (ht : g.hasNode t = true) :
+    findPath g flt s t = .error .pathNotFound ↔ ¬ ∃ n, BWalk g flt t s t n :=
+  Neumann.Paths.bfs_none_iff_unreachable g flt s t hs ht
+
+/-- fuel adequacy: the BFS loop never stops for lack of fuel -/
+theorem bfs_fuel_adequate (g : Graph) (flt : Flt) (s t : Nat) (k : Nat) :
+    bfsLoop g flt t (bfsFuel g + k) { queue := [s], visited := [s], parent := [] }
+      = bfsLoop g flt t (bfsFuel g) { queue := [s], visited := [s], parent := [] } :=
+  Neumann.Paths.bfs_fuel_adequate g flt s t k
+
+/-- non-vacuity: a mixed graph with a filter that forces a detour (node 2 fails `c ≠ 9`),
+    an unreachable pair with existing endpoints, and a target exempt from the node filter -/
+def fltGraph : Graph :=
+  { nodes := [⟨1, some 0⟩, ⟨2, some 9⟩, ⟨3, some 0⟩, ⟨4, some 9⟩, ⟨5, some 0⟩]
+    edges := [⟨10, 1, 2, true, 0, none, some 1⟩, ⟨11, 2, 4, true, 0, none, some 1⟩,
+              ⟨12, 1, 3, false, 0, none, some 1⟩, ⟨13, 5, 3, false, 0, none, some 1⟩,
+              ⟨14, 5, 4, true, 0, none, some 1⟩, ⟨15, 4, 4, true, 0, none, some 1⟩] }
+
+def ne9 : Flt := mkFlt fltGraph [{ op := .ne, val := 9 }] []
+
+example : (findPath fltGraph Flt.all 1 4).toOption = some { nodes := [1, 2, 4], edges := [10, 11] } := by decide
+example : (findPath fltGraph ne9 1 4).toOption = some { nodes := [1, 3, 5, 4], edges := [12, 13, 14] } := by decide
+example : fltGraph.hasNode 4 = true ∧ fltGraph.hasNode 1 = true ∧
+    (findPath fltGraph Flt.all 4 1).toOption = none := by decide
+
+/-! ### find_weighted_path: a real walk of the reported weight, optimal for non-negative weights -/
+
+/-- the returned chain starts at `s`, ends at `t`, follows existing edges along their direction and
+    its edge weights add up to exactly the reported total -/
+theorem dijkstra_path_is_walk (g : Graph) (s t : Nat) (p : WPath) (hnn : NonNeg g)
+    (h : findWeightedPath g s t = .ok p) :
+    p.nodes.head? = some s ∧ p.nodes.getLast? = some t ∧ WChainOk g p.nodes p.edges p.total :=
+  Neumann.Paths.dijkstra_path_is_walk g s t p hnn h
+
+/-- no direction-respecting walk from `s` to `t` is lighter than the reported total -/
+theorem dijkstra_optimal (g : Graph) (s t : Nat) (p : WPath) (hnn : NonNeg g)
+    (h : findWeightedPath g s t = .ok p) :
+    ∀ c, WWalk g s t c → p.total ≤ c :=
+  Neumann.Paths.dijkstra_optimal g s t p hnn h
+
+/-- `NegativeWeight{edge_id}` always names an existing edge with a negative weight -/
+theorem dijkstra_negative_reported (g : Graph) (s t : Nat) (id : Nat)
+    (h : findWeightedPath g s t = .error (.negativeWeight id)) :
+    ∃ e, e ∈ g.edges ∧ e.id = id ∧ e.w < 0 :=
+  Neumann.Paths.dijkstra_negative_reported g s t id h
+
+/-- for existing endpoints and non-negative weights, `PathNotFound` iff no walk exists
+    (includes fuel adequacy of the Dijkstra loop) -/
+theorem dijkstra_none_iff_unreachable (g : Graph) (s t : Nat) (hnn : NonNeg g)
+    (hs : g.hasNode s = true) (ht : g.hasNode t = true) :
+    findWeightedPath g s t = .error .pathNotFound ↔ ¬ ∃ c, WWalk g s t c :=
+  Neumann.Paths.dijkstra_none_iff_unreachable g s t hnn hs ht
+
+/-- non-vacuity: parallel edges of different weight, a zero-weight edge, a missing weight (= 1),
+    an undirected edge used backwards; the two-hop route 1→2→3 (0 + 1) beats the direct edge (5) -/
+def wGraph : Graph :=
+  { nodes := [⟨1, none⟩, ⟨2, none⟩, ⟨3, none⟩, ⟨4, none⟩]
+    edges := [⟨20, 1, 3, true, 0, some 5, none⟩, ⟨21, 1, 2, true, 0, some 0, none⟩,
+              ⟨22, 3, 2, false, 0, none, none⟩, ⟨23, 1, 3, true, 0, some 4, none⟩,
+              ⟨24, 4, 1, true, 0, some 2, none⟩] }
+
+example : NonNeg wGraph := by
+  intro e he
+  simp only [wGraph, List.mem_cons, List.not_mem_nil, or_false] at he
+  rcases he with rfl | rfl | rfl | rfl | rfl <;> decide
+example : (findWeightedPath wGraph 1 3).toOption = some { nodes := [1, 2, 3], edges := [21, 22], total := 1 } := by decide
+example : wGraph.hasNode 1 = true ∧ wGraph.hasNode 4 = true ∧ (findWeightedPath wGraph 1 4).toOption = none := by decide
 
 /-! ### traverse: exactly the nodes within the hop bound -/
 
